@@ -355,6 +355,30 @@ def check(repo: Repo, run: Run) -> None:
                f"{name} " + ("takes every calendar field from the zoned instant" if not direct else
                              f"reads `self.{direct[0]}` of the stored instant: when the requested zone (or the timestamp's own offset) puts the instant on another day / year, the result mixes two zones"),
                ct.loc(fn))
+    # A1 (the conversion itself): the accessors rely on datetime.astimezone.  If TimestampType overrides it (or
+    # utcoffset / tzinfo handling), every returning path must come from the inherited conversion or tz.fromutc();
+    # `tz.utcoffset(<naive UTC reading>)` reads its argument as *local* wall time of the zone - wrong within
+    # |offset| hours of every DST change - and is the recognised wrong form.
+    for mname in ("astimezone", "utcoffset", "dst"):
+        ov = ts.get(mname)
+        if ov is None:
+            run.ob("C11.A1", f"TimestampType.{mname}|inherited", True, f"TimestampType inherits datetime.{mname}", str(ct.path))
+            continue
+        rets = [r.value for r in ast.walk(ov) if isinstance(r, ast.Return) and r.value is not None]
+        def from_super(e: ast.expr) -> bool:
+            return any(isinstance(c, ast.Call) and isinstance(c.func, ast.Attribute) and c.func.attr in (mname, "fromutc")
+                       and (c.func.attr == "fromutc" or (isinstance(c.func.value, ast.Call) and dotted(c.func.value.func) == "super"))
+                       for c in ast.walk(e))
+        off_calls = [c for c in ast.walk(ov) if isinstance(c, ast.Call) and isinstance(c.func, ast.Attribute) and c.func.attr == "utcoffset"
+                     and c.args and not (isinstance(c.func.value, ast.Name) and c.func.value.id == "self")]
+        if rets and all(from_super(e) for e in rets):
+            run.ob("C11.A1", f"TimestampType.{mname}|inherited", True, f"TimestampType.{mname} returns the inherited conversion on every path", ct.loc(ov))
+        elif off_calls and mname == "astimezone":
+            run.ob("C11.A1", f"TimestampType.{mname}|inherited", False,
+                   f"TimestampType.astimezone computes the zone's offset with `{ast.unparse(off_calls[0])[:60]}`: tzinfo.utcoffset() reads its argument as local wall "
+                   "time of that zone, not as UTC, so within |offset| hours of a DST change every accessor reads the wrong side of the transition", ct.loc(ov))
+        else:
+            run.inconclusive("C11.A1", f"TimestampType.{mname}", "overridden; not every returning path is the inherited conversion")
     # tz_parse / tz_name_lookup wiring
     tzp = ts.get("tz_parse")
     s = ast.unparse(tzp) if tzp else ""
